@@ -406,6 +406,7 @@ func (c14) Exec(x *Exec, ci interface{}) *Verdict {
 		bc = sr
 	}
 	ids := map[bgzf.Block]int{}
+	putUsed := map[int]bool{}
 	nextID := 0
 	var clock int64
 	var recs []c14Rec
@@ -430,6 +431,9 @@ func (c14) Exec(x *Exec, ci interface{}) *Verdict {
 					ids[blk] = nextID
 				}
 				in.ID = ids[blk]
+				if op.Used {
+					putUsed[in.ID] = true // sticky: a concurrent recycler may re-put it unused meanwhile
+				}
 			}
 			clock++
 			call := clock
@@ -454,7 +458,10 @@ func (c14) Exec(x *Exec, ci interface{}) *Verdict {
 					if b.Base() != baseOffset(op.Base) {
 						note = fmt.Sprintf("Get(%d) returned a block whose base is %d", baseOffset(op.Base), b.Base())
 					}
-					if c.Kind == "fifo" && b.Used() {
+					// identification of known finding F2b: FIFO.Get of a block
+					// that was Put as used (judged by the Put, not by the block's
+					// current flag, which a concurrent recycler may have changed)
+					if c.Kind == "fifo" && (b.Used() || putUsed[ids[b]]) {
 						fifoGetUsed = true
 					}
 					owned = append(owned, b)
@@ -505,7 +512,11 @@ func (c14) Exec(x *Exec, ci interface{}) *Verdict {
 	}
 	for _, r := range recs {
 		if r.note != "" {
-			vd.V = Mismatch(c.Kind+":contract"+suffix, "client %d %+v: %s", r.client, r.in, r.note)
+			var hs []string
+			for _, q := range recs {
+				hs = append(hs, fmt.Sprintf("c%d[%d,%d] %s(base=%d used=%v n=%d id=%d) -> %+v", q.client, q.call, q.rt, q.in.Op, q.in.Base, q.in.Used, q.in.N, q.in.ID, q.out))
+			}
+			vd.V = Mismatch(c.Kind+":contract"+suffix, "client %d %+v: %s\nhistory:\n%s", r.client, r.in, r.note, strings.Join(hs, "\n"))
 			return vd
 		}
 	}
